@@ -305,7 +305,19 @@ impl Ctx {
         use std::os::unix::process::ExitStatusExt;
         let cpu_killed = status.as_ref().ok().map(|s| matches!(s.signal(), Some(24) | Some(9)) || matches!(s.code(), Some(152) | Some(137))).unwrap_or(false);
         let code = if cpu_killed { Some(124) } else { status.ok().and_then(|s| s.code()).map(|c| if c == 124 { 125 } else { c }) };
-        let hang_is_violation = matches!(self.prop.as_str(), "C06" | "C09" | "C10");
+        let mut hang_is_violation = matches!(self.prop.as_str(), "C06" | "C09" | "C10");
+        if code == Some(124) && self.prop == "C14" {
+            // C14 is a differential: a confirmed hang is a violation exactly when the reference
+            // configuration (instrumented memory backend, no cache) completes the same history
+            let st = std::process::Command::new("sh")
+                .arg("-c")
+                .arg(format!("ulimit -v 8000000; ulimit -t 120; HCV_C14_REFERENCE_ONLY=1 exec timeout 3600 {} C14 --replay {}", exe.display(), path))
+                .status();
+            if st.ok().and_then(|s| s.code()) == Some(0) {
+                eprintln!("[C14] the reference configuration completes this history; another configuration never returns");
+                hang_is_violation = true;
+            }
+        }
         match code {
             Some(124) if hang_is_violation => {
                 if self.is_known(&f) {
